@@ -61,9 +61,8 @@ RoundUp(x, a) == ((x + a - 1) \div a) * a
 Prof(ptr, a64, zpad) == [ptr |-> ptr, int |-> ptr, a64 |-> a64, maxalign |-> Max(ptr, a64), zpad |-> zpad]
 AMD64 == Prof(8, 8, TRUE)                        \* also arm64
 \* the finite family an observed computation is fitted against (reported, not demanded, off the host)
-Profiles == [p64 |-> AMD64, p64nz |-> Prof(8, 8, FALSE),
-             p32a4 |-> Prof(4, 4, TRUE), p32a4nz |-> Prof(4, 4, FALSE),
-             p32a8 |-> Prof(4, 8, TRUE), p32a8nz |-> Prof(4, 8, FALSE)]
+ProfileNames == <<"p64", "p64nz", "p32a4", "p32a4nz", "p32a8", "p32a8nz">>
+Profiles == <<AMD64, Prof(8, 8, FALSE), Prof(4, 4, TRUE), Prof(4, 4, FALSE), Prof(4, 8, TRUE), Prof(4, 8, FALSE)>>
 
 \* ------------------------------------------------------------------ the layout
 BasicSize(n, p) ==
@@ -111,12 +110,14 @@ Offsets(t, p) == TL(t, p).o
 MaxSlot == 128
 Slot(x, p) == IF Size(x, p) > MaxSlot THEN P(x) ELSE x
 Bucket(t, p) == ST(<<AR(8, B("uint8")), AR(8, Slot(t.key, p)), AR(8, Slot(t.e, p)), B("uintptr")>>)
-Under(t) == IF t.k = "named" THEN t.u ELSE t
+RECURSIVE Under(_)
+Under(t) == IF t.k = "named" THEN Under(t.u) ELSE t
 
-Lay(t, p) == Only({[s |-> l.s, a |-> l.a, o |-> l.o,
-                     m |-> IF Under(t).k = "map"
-                             THEN <<Size(Slot(Under(t).key, p), p), Size(Slot(Under(t).e, p), p), Size(Bucket(Under(t), p), p)>>
-                             ELSE <<>>] : l \in {TL(t, p)}})
+\* what is compared: <<size, alignment, field offsets, map slots (key slot, element slot, bucket size; maps only)>>
+Lay(t, p) == Only({<<l.s, l.a, l.o,
+                     IF Under(t).k = "map"
+                       THEN <<Size(Slot(Under(t).key, p), p), Size(Slot(Under(t).e, p), p), Size(Bucket(Under(t), p), p)>>
+                       ELSE <<>> >> : l \in {TL(t, p)}})
 
 \* the first sentence of the property, as a predicate on three observed layouts
 Agree(a, b, c) == a = b /\ b = c
@@ -151,6 +152,11 @@ M4 == {B("int8"), B("int32"), B("int64"), B("complex128"), B("string"), FN, ST(<
 M3 == M4 \cup {B("bool"), B("int16"), B("float32"), B("float64"), B("int"), P(B("int64")), SL(B("int8")), IFC(0)}
 Pads == {B("int8"), B("int64"), FN, ST(<<>>)}
 
+CONSTANT Tier       \* "quick": a sub-grammar (narrower menus for 3/4-field structs and for what gets wrapped); "thorough": all
+Full == Tier = "thorough"
+Menu3 == IF Full THEN M3 ELSE M4
+Menu4 == IF Full THEN M4 ELSE M4 \ {B("int32"), B("string")}
+
 VARIABLES t, ph, sm \* the term built so far; phase: 0 root, 1 leaf, 2 flat struct, 3 one wrapper, 4 two wrappers;
                     \* sm: the wrapped inner term was small (gets a second wrapper)
 vars == <<t, ph, sm>>
@@ -159,10 +165,11 @@ Root == [k |-> "root"]
 InM(fs, M) == \A i \in 1..Len(fs) : fs[i] \in M
 \* inner terms that get wrapped: leaves, flat structs of <= 2 fields, flat 3-field structs over M4
 Wrappable1 == \/ ph = 1
-              \/ ph = 2 /\ (Len(t.fields) <= 2 \/ (Len(t.fields) = 3 /\ InM(t.fields, M4)))
+              \/ ph = 2 /\ Full /\ (Len(t.fields) <= 2 \/ (Len(t.fields) = 3 /\ InM(t.fields, M4)))
+              \/ ph = 2 /\ ~Full /\ Len(t.fields) <= 2 /\ InM(t.fields, M3)
 \* terms that get a second wrapper: a wrapped leaf of M4 or a wrapped flat struct of <= 2 fields over M4
 Small(x) == \/ x \in M4
-            \/ x.k = "struct" /\ Len(x.fields) <= 2 /\ InM(x.fields, M4)
+            \/ x.k = "struct" /\ Len(x.fields) <= (IF Full THEN 2 ELSE 1) /\ InM(x.fields, M4)
 Wrappable2 == ph = 3 /\ sm
 
 Wrap1(x) == {AR(0, x), AR(1, x), AR(3, x), NM(x), P(x)}
@@ -181,8 +188,8 @@ Next ==
      /\ sm' = FALSE
   \/ /\ ph = 2                                                     \* one more field
      /\ \/ Len(t.fields) = 1 /\ t' \in {ST(Append(t.fields, f)) : f \in Leaves}
-        \/ Len(t.fields) = 2 /\ InM(t.fields, M3) /\ t' \in {ST(Append(t.fields, f)) : f \in M3}
-        \/ Len(t.fields) = 3 /\ InM(t.fields, M4) /\ t' \in {ST(Append(t.fields, f)) : f \in M4}
+        \/ Len(t.fields) = 2 /\ InM(t.fields, Menu3) /\ t' \in {ST(Append(t.fields, f)) : f \in Menu3}
+        \/ Len(t.fields) = 3 /\ InM(t.fields, Menu4) /\ t' \in {ST(Append(t.fields, f)) : f \in Menu4}
      /\ ph' = 2 /\ sm' = FALSE
   \/ /\ Wrappable1 /\ t' \in Wrap1(t) /\ ph' = 3 /\ sm' = Small(t)
   \/ /\ Wrappable2 /\ t' \in Wrap2(t) /\ ph' = 4 /\ sm' = FALSE
@@ -190,19 +197,21 @@ Spec == Init /\ [][Next]_vars
 
 \* ------------------------------------------------------------------ laws of the layout itself (checked on every term)
 AllProfiles == {Profiles[n] : n \in DOMAIN Profiles}
+S_(l) == l[1]
+O_(l) == l[3]
 FieldsOf(x) == IF Under(x).k = "struct" THEN Under(x).fields ELSE <<>>
 LawSizeMultipleOfAlign == ph = 0 \/ \A p \in AllProfiles : Size(t, p) % Align(t, p) = 0
 LawOffsetsAligned ==
   ph = 0 \/ \A p \in AllProfiles : \A l \in {Lay(t, p)} : \A i \in 1..Len(FieldsOf(t)) :
      \A fsz \in {Size(FieldsOf(t)[i], p)} :
-           /\ l.o[i] % Align(FieldsOf(t)[i], p) = 0                      \* every field aligned
-           /\ l.o[i] + fsz <= l.s                                        \* inside the struct
-           /\ (i > 1 => l.o[i] >= l.o[i - 1] + Size(FieldsOf(t)[i - 1], p))   \* in order, no overlap
+           /\ O_(l)[i] % Align(FieldsOf(t)[i], p) = 0                      \* every field aligned
+           /\ O_(l)[i] + fsz <= S_(l)                                        \* inside the struct
+           /\ (i > 1 => O_(l)[i] >= O_(l)[i - 1] + Size(FieldsOf(t)[i - 1], p))   \* in order, no overlap
 \* the reason for zpad: the address of every field of a non-empty struct is inside the object
 LawZeroTailInside ==
   ph = 0 \/ \A p \in AllProfiles : p.zpad => \A l \in {Lay(t, p)} :
-     l.s > 0 => \A i \in 1..Len(FieldsOf(t)) : l.o[i] < l.s
+     S_(l) > 0 => \A i \in 1..Len(FieldsOf(t)) : O_(l)[i] < S_(l)
 
 Emit == ph = 0 \/ PrintT(ToJson([t |-> t, ph |-> ph, cc |-> CCompat(t),
-                                 L |-> [n \in DOMAIN Profiles |-> Lay(t, Profiles[n])]]))
+                                 L |-> [n \in DOMAIN Profiles |-> Lay(t, Profiles[n])]]))    \* in the order of ProfileNames
 =============================================================================
